@@ -103,6 +103,11 @@ func deliverBlock(ctx context.Context, run *common.Run, obs *c04obs, seed int64,
 		cut = c.Pos
 	case "other-header":
 		header = other.Header
+	case "other-block-complete":
+		// a complete, self-consistent block that is not the requested one
+		header = other.Header
+		txs = append([]*wire.MsgTx(nil), other.Txs...)
+		announced = uint64(len(txs))
 	case "header-wrong-root-requested":
 		// the requested block's header does not commit to the delivered transactions
 		h := blk.Header.Copy()
@@ -122,6 +127,9 @@ func deliverBlock(ctx context.Context, run *common.Run, obs *c04obs, seed int64,
 	switch c.Relevant {
 	case "all":
 		for _, id := range blk.TxIDs {
+			relSet[id] = true
+		}
+		for _, id := range other.TxIDs {
 			relSet[id] = true
 		}
 	case "one":
@@ -357,7 +365,7 @@ func c04Cases(tier string, seed int64) []blockCase {
 				}
 			}
 			out = append(out, blockCase{N: n, Relevant: rel, Corruption: "add", Pos: n})
-			for _, cor := range []string{"count+1", "count-1", "other-header", "header-wrong-root-requested", "duplicate-last"} {
+			for _, cor := range []string{"count+1", "count-1", "other-header", "other-block-complete", "header-wrong-root-requested", "duplicate-last"} {
 				out = append(out, blockCase{N: n, Relevant: rel, Corruption: cor})
 			}
 			out = append(out, blockCase{N: n, Relevant: rel, Fault: "coinbase", FaultAt: 1})
@@ -379,7 +387,7 @@ func c04Cases(tier string, seed int64) []blockCase {
 		for _, rel := range rels {
 			out = append(out, blockCase{N: n, Relevant: rel})
 			for j := 0; j < 6; j++ {
-				cor := []string{"drop", "drop-count-kept", "add", "swap", "alter", "cut", "count+1", "count-1", "other-header", "duplicate-last"}[rng.Intn(10)]
+				cor := []string{"drop", "drop-count-kept", "add", "swap", "alter", "cut", "count+1", "count-1", "other-header", "duplicate-last", "other-block-complete"}[rng.Intn(11)]
 				out = append(out, blockCase{N: n, Relevant: rel, Corruption: cor, Pos: rng.Intn(n)})
 				f := []string{"process", "cancel", "stop", "confirm", "store", "coinbase"}[rng.Intn(6)]
 				out = append(out, blockCase{N: n, Relevant: rel, Fault: f, FaultAt: 1 + rng.Intn(n), Pos: rng.Intn(n)})
